@@ -169,6 +169,9 @@ class Interp:
         self.last_finished = None
         self.vers = {}
         self.stats = {"invocations": 0, "cached_calls": 0, "asks": 0, "errors": {}}
+        self.meta = []           # one dict per history step
+        self.cur = None
+        self.raised_objs = {}
 
     # -- bodies
     def body_for(self, fname):
@@ -185,6 +188,17 @@ class Interp:
             else:
                 target, args = None, list(rest)
             interp.stats["invocations"] += 1
+            if interp.cur is not None:
+                interp.cur["misses"] += 1
+                if target is not None:
+                    # C10: the function starts with the target absent, an absolute normalised path,
+                    # and every parent directory present
+                    if os.path.lexists(target):
+                        interp.cur["entry_violations"].append("target exists at function entry: " + interp.sb.rel(target))
+                    if target != os.path.abspath(target) or not os.path.isabs(target):
+                        interp.cur["entry_violations"].append("path not absolute/normalised: " + target)
+                    if not os.path.isdir(os.path.dirname(target)):
+                        interp.cur["entry_violations"].append("parent missing at function entry: " + interp.sb.rel(target))
             interp.log.append("invoke %s %s %s %s" % (
                 fname, interp.sb.rel(target) if target is not None else "-", show_val(args), show_val(kwargs)))
             try:
@@ -295,8 +309,21 @@ class Interp:
                     env[x] = Out(val=v)
                     if self.stats["invocations"] == before:
                         self.stats["cached_calls"] += 1
+                        if self.cur is not None:
+                            self.cur["hits"] += 1
+                    if self.cur is not None:
+                        tp = self.sb.abs(path)
+                        if not os.path.isfile(tp):
+                            self.cur["entry_violations"].append("build_file returned but target is not a regular file: " + pstr(path))
                 except Exception as e:       # noqa
                     env[x] = Out(exc=e)
+                    if self.cur is not None and not isinstance(e, TypeError):
+                        tp = self.sb.abs(path)
+                        # C10: after a failure the target does not exist (unless the failure was a refusal
+                        # that never touched it: duplicate / directory / cache file)
+                        self.cur["failed_targets"].append(pstr(path))
+                if self.cur is not None:
+                    self.cur["targets"].append(pstr(path))
             elif k == "subbuild":
                 _, x, fname, a, kw = s
                 before = self.stats["invocations"]
@@ -305,6 +332,8 @@ class Interp:
                     env[x] = Out(val=v)
                     if self.stats["invocations"] == before:
                         self.stats["cached_calls"] += 1
+                        if self.cur is not None:
+                            self.cur["hits"] += 1
                 except Exception as e:       # noqa
                     env[x] = Out(exc=e)
             elif k == "write":
@@ -315,7 +344,11 @@ class Interp:
             elif k == "ret":
                 return True, self.vexpr(s[1], env, args)
             elif k == "raise":
-                raise UserError(s[1])
+                ue = UserError(s[1])
+                if self.cur is not None:
+                    self.cur["raised_ids"].append(id(ue))
+                    self.raised_objs[id(ue)] = ue
+                raise ue
             elif k == "reraise":
                 if env[s[1]].exc is not None:
                     raise env[s[1]].exc
@@ -387,6 +420,10 @@ class Interp:
             self.sb.snapshot(self.cachefile)
             for step in self.case["history"]:
                 self.log = []
+                self.cur = {"kind": step[0], "targets": [], "entry_violations": [], "hits": 0, "misses": 0,
+                            "raised_ids": [], "failed_targets": [], "exc_same": None}
+                self.cur.update(read_cache_info(self.cachefile, self.sb))
+                self.meta.append(self.cur)
                 if step[0] == "mutate":
                     for op in step[1]:
                         self.fsop(op)
@@ -407,7 +444,10 @@ class Interp:
                         res = "ok:" + show_val(v)
                     except Exception as e:       # noqa
                         res = "err:" + exn_class(e)
+                        if isinstance(e, UserError):
+                            self.cur["exc_same"] = id(e) in self.cur["raised_ids"]
                     leftover = os.listdir(self.sb.tmp)
+                    self.cur["temp_left"] = len(leftover)
                     obs.append([res] + self.log + (["TEMP-LEFT %d" % len(leftover)] if leftover else []) +
                                ["--tree"] + self.sb.snapshot(self.cachefile))
                 elif step[0] == "clean":
@@ -423,6 +463,27 @@ class Interp:
             tempfile.tempdir = old_tmp
             self.sb.close()
         return obs
+
+
+def read_cache_info(cachefile, sb):
+    """What the previous committed build recorded (read independently of the package)."""
+    import gzip
+    info = {"old_outputs": [], "old_dirs": [], "cache_readable": False}
+    try:
+        with gzip.open(cachefile, "rt") as f:
+            j = json.load(f)
+        def walk(ops):
+            for o in ops:
+                if o.get("type") == "build_file" and not o.get("raised") and not o.get("setupFailed"):
+                    info["old_outputs"].append(sb.rel(o["filename"]))
+                if "suboperations" in o:
+                    walk(o["suboperations"])
+        walk(j["rootOperations"])
+        info["old_dirs"] = [sb.rel(d) for d in j["createdDirs"]]
+        info["cache_readable"] = True
+    except Exception:       # noqa
+        pass
+    return info
 
 
 def corrupt_cache(path, kind):
